@@ -104,7 +104,12 @@ CLAIMS = {
              "most 31 characters together the stdheader template text is accepted and its trace yields 0 diagnostics; for ALL "
              "field values without newline or *, each mutation Hm1..Hm8 (first statement not a comment, // comments, one block, "
              "any line removed, any frame width other than 74, any By/Created/Updated line not starting with its keyword) yields "
-             "exactly 1.  Recorded findings are refuted by witness.  Correspondence: the generated state machine replayed in Coq "
+             "exactly 1.  END TO END at file level for the accept direction: IsComment.run and the first test of "
+             "IsPreprocessorStatement.run are translated from the source; the header followed by ANY text is lexed into one "
+             "MULT_COMMENT token per template line, the first 11 turns of the registry loop are IsComment matches on which "
+             "CheckHeader runs, and no INVALID_HEADER is emitted at any later turn (C13_file_accept; hypothesis: the engine oracle "
+             "agrees with the token-level turn where the translated primaries decide it - compared on every run).  Recorded "
+             "findings are refuted by witness.  Correspondence: the generated state machine replayed in Coq "
              "on events recorded from CheckHeader.run, the regex model vs the source's compiled pattern, the template vs the "
              "repository's sample header; search: field sets x mutations x bodies on the implementation.",
         ref="DESIGN.md 4.13", technique="Rocq proof (verified regex matcher, counting lemmas, state machine translated from source) + event/regex correspondence + mutation search",
